@@ -73,9 +73,11 @@ func (l *Lexer) NextToken() token.Token {
 	l.skipWhitespace()
 
 	// skip single-line comments
-	if l.ch == rune('/') && l.peekChar() == rune('/') {
+	//
+	// (skipComment also skips the white space which follows the
+	// comment, so we'll be at the start of a token - or another comment.)
+	for l.ch == rune('/') && l.peekChar() == rune('/') {
 		l.skipComment()
-		return (l.NextToken())
 	}
 
 	switch l.ch {
